@@ -99,6 +99,10 @@ UniformNorm(nodes, ids) == \A a, b \in ids : N2(nodes[a + 1]) = N2(nodes[b + 1])
 FaceCentreDir(nodes, face) == Prim(SumDirs(nodes, face, Len(face)))
 EdgeCentreDir(nodes, row)  == Prim(Add3(nodes[row[1] + 1], nodes[row[2] + 1]))
 
+\* shrink map about centre c with factor 1/M (gnomonic projection, homothety of the tangent plane), exact, linear
+Scale3(k, v)    == << k * v[1], k * v[2], k * v[3] >>
+Shrink(c, M, v) == Add3(Scale3((M - 1) * Dot(v, c), c), Scale3(N2(c), v))
+
 (* ---- latitude / longitude / distance classes, exact ------------------------- *)
 \* longitude order on (-180, 180] of non-pole directions; the antimeridian is 180
 LonHalf(u) == IF u[2] > 0 \/ (u[2] = 0 /\ u[1] < 0) THEN 1 ELSE IF u[2] < 0 THEN -1 ELSE 0
